@@ -1,8 +1,10 @@
-(* GENERATED on every run by tools/rs2v_loops.py from /repo/src/buint/{overflowing,const_trait_fillers,mul,mod,ops,checked}.rs.
-   Do not edit.  Proofs/LoopsTie.v proves each function equal to the hand-written model.
-   Vocabulary: Model/Imp.v (control flow), Prim.v, Model/DigitPrims.v, Model/LoopPrims.v, Generated/DigitGen.v. *)
+(* GENERATED on every run by tools/rs2v_loops.py from /repo/src/buint/{overflowing,const_trait_fillers,mul,mod,ops,checked,wrapping,cast,convert}.rs
+   and /repo/src/bint/overflowing.rs.  Do not edit.  Proofs/LoopsTie*.v prove each function equal to the hand-written model.
+   Vocabulary: Model/Imp.v (control flow), Prim.v, Model/DigitPrims.v, Model/LoopPrims.v, Generated/DigitGen.v;
+   calls of $BUint methods that are not re-translated are calls of the hand-written model (qualified: Mul.U_overflowing_mul ..). *)
 From Bnum Require Import Base Prim.
 From Bnum.Model Require Import DigitPrims LoopPrims Core Imp.
+From Bnum.Model Require Mul Div AddSub.
 From Bnum.Generated Require Import DigitGen.
 
 Module Loops.
@@ -699,6 +701,478 @@ Definition div_rem_digit (w N : Z) (fuel : nat) (self : list Z) (rhs : Z) : res 
   | Exited (out, rem, i) =>
       Done (out, rem)
   | Returned t4' => Done t4'
+  end.
+
+(* src/buint/mod.rs: fn from_digit *)
+Definition from_digit (w N : Z) (fuel : nat) (digit : Z) : res (list Z) :=
+  let out := (ZERO (Z.to_nat N)) in
+  out <- arr_set out 0 digit ;;
+  Done out.
+
+(* src/buint/mod.rs: fn digits *)
+Definition digits (w N : Z) (fuel : nat) (self : list Z) : res (list Z) :=
+  Done self.
+
+(* src/buint/mod.rs: fn from_digits *)
+Definition from_digits (w N : Z) (fuel : nat) (digits : list Z) : res (list Z) :=
+  Done digits.
+
+(* src/buint/mod.rs: fn bit *)
+Definition bit (w N : Z) (fuel : nat) (self : list Z) (index : Z) : res (bool) :=
+  t1' <- arr_get self (ix_shr index (digit_BIT_SHIFT w)) ;;
+  let digit := t1' in
+  t2' <- dshl w 1 (ix_and index (digit_BITS_MINUS_1 w)) ;;
+  Done (negb ((dg_and w digit t2') =? 0)).
+
+(* src/buint/mod.rs: fn set_bit *)
+Definition set_bit (w N : Z) (fuel : nat) (self : list Z) (index : Z) (value : bool) : res (list Z) :=
+  let t1' := (ix_shr index (digit_BIT_SHIFT w)) in
+  t2' <- arr_get self t1' ;;
+  let shift := (ix_and index (digit_BITS_MINUS_1 w)) in
+  t3' <- arr_get self t1' ;;
+  t4' <- dshl w 1 shift ;;
+  t5' <- dshl w (Z.b2z value) shift ;;
+  self <- arr_set self t1' (dg_or w (dg_and w t3' (u_not w t4')) t5') ;;
+  Done self.
+
+(* src/buint/mod.rs: fn power_of_two *)
+Definition power_of_two (w N : Z) (fuel : nat) (power : Z) : res (list Z) :=
+  let out := (ZERO (Z.to_nat N)) in
+  t1' <- usub w 1 ;;
+  t2' <- dshl w 1 (ix_and power t1') ;;
+  out <- arr_set out (ix_shr power (digit_BIT_SHIFT w)) t2' ;;
+  Done out.
+
+(* src/bint/overflowing.rs: fn overflowing_add *)
+Definition I_overflowing_add (w N : Z) (fuel : nat) (self : list Z) (rhs : list Z) : res (list Z * bool) :=
+  let out := (ZERO (Z.to_nat N)) in
+  let carry := false in
+  let self_digits := self in
+  let rhs_digits := rhs in
+  let i := 0 in
+  t4' <- while_loop (R := (list Z * bool)) fuel
+    (fun '(out, carry, i) => true)
+    (fun '(out, carry, i) =>
+      t1' <- usub N 1 ;;
+      if (i <? t1') then (
+        t2' <- arr_get self_digits i ;;
+        t3' <- arr_get rhs_digits i ;;
+        let '(sum, c) := (DigitGen.carrying_add w t2' t3' carry) in
+        out <- arr_set out i sum ;;
+        let carry := c in
+        let i := (i + 1) in
+        Done (Continue (out, carry, i))
+      ) else (
+        Done (Break (out, carry, i))
+      ))
+    (out, carry, i) ;;
+  match t4' with
+  | Exited (out, carry, i) =>
+      t6' <- usub N 1 ;;
+      t7' <- arr_get self_digits t6' ;;
+      t8' <- usub N 1 ;;
+      t9' <- arr_get rhs_digits t8' ;;
+      let '(sum, carry) := (DigitGen.carrying_add_signed w (sd w t7') (sd w t9') carry) in
+      t10' <- usub N 1 ;;
+      out <- arr_set out t10' (ud w sum) ;;
+      Done (out, carry)
+  | Returned t5' => Done t5'
+  end.
+
+(* src/bint/overflowing.rs: fn overflowing_sub *)
+Definition I_overflowing_sub (w N : Z) (fuel : nat) (self : list Z) (rhs : list Z) : res (list Z * bool) :=
+  let out := (ZERO (Z.to_nat N)) in
+  let borrow := false in
+  let self_digits := self in
+  let rhs_digits := rhs in
+  let i := 0 in
+  t4' <- while_loop (R := (list Z * bool)) fuel
+    (fun '(out, borrow, i) => true)
+    (fun '(out, borrow, i) =>
+      t1' <- usub N 1 ;;
+      if (i <? t1') then (
+        t2' <- arr_get self_digits i ;;
+        t3' <- arr_get rhs_digits i ;;
+        let '(sub, b) := (DigitGen.borrowing_sub w t2' t3' borrow) in
+        out <- arr_set out i sub ;;
+        let borrow := b in
+        let i := (i + 1) in
+        Done (Continue (out, borrow, i))
+      ) else (
+        Done (Break (out, borrow, i))
+      ))
+    (out, borrow, i) ;;
+  match t4' with
+  | Exited (out, borrow, i) =>
+      t6' <- usub N 1 ;;
+      t7' <- arr_get self_digits t6' ;;
+      t8' <- usub N 1 ;;
+      t9' <- arr_get rhs_digits t8' ;;
+      let '(sub, borrow) := (DigitGen.borrowing_sub_signed w (sd w t7') (sd w t9') borrow) in
+      t10' <- usub N 1 ;;
+      out <- arr_set out t10' (ud w sub) ;;
+      Done (out, borrow)
+  | Returned t5' => Done t5'
+  end.
+
+(* src/bint/overflowing.rs: fn overflowing_neg *)
+Definition I_overflowing_neg (w N : Z) (fuel : nat) (self : list Z) : res (list Z * bool) :=
+  let i := 0 in
+  t6' <- while_loop (R := (list Z * bool)) fuel
+    (fun '(self, i) => true)
+    (fun '(self, i) =>
+      t1' <- usub N 1 ;;
+      if (i <? t1') then (
+        t2' <- arr_get self i ;;
+        let '(s, o) := (u_ovf_add w (u_not w t2') 1) in
+        self <- arr_set self i s ;;
+        if (negb o) then (
+          let i := (i + 1) in
+          t4' <- while_loop (R := (list Z * bool)) fuel
+            (fun '(self, i) => (i <? N))
+            (fun '(self, i) =>
+              t3' <- arr_get self i ;;
+              self <- arr_set self i (u_not w t3') ;;
+              let i := (i + 1) in
+              Done (Continue (self, i)))
+            (self, i) ;;
+          match t4' with
+          | Exited (self, i) =>
+              Done (Return (self, false))
+          | Returned t5' => Done (Return t5')
+          end
+        ) else (
+          let i := (i + 1) in
+          Done (Continue (self, i))
+        )
+      ) else (
+        Done (Break (self, i))
+      ))
+    (self, i) ;;
+  match t6' with
+  | Exited (self, i) =>
+      t8' <- arr_get self i ;;
+      let '(s, o) := (s_ovf_add w (sd w (u_not w t8')) 1) in
+      self <- arr_set self i (ud w s) ;;
+      Done (self, o)
+  | Returned t7' => Done t7'
+  end.
+
+(* src/buint/overflowing.rs: fn overflowing_pow *)
+Definition overflowing_pow (w N : Z) (fuel : nat) (self : list Z) (pow : Z) : res (list Z * bool) :=
+  if (pow =? 0) then (
+    t1' <- from_digit w N fuel 1 ;;
+    Done (t1', false)
+  ) else (
+    let overflow := false in
+    t2' <- from_digit w N fuel 1 ;;
+    let y := t2' in
+    t3' <- while_loop (R := (list Z * bool)) fuel
+      (fun '(self, y, overflow, pow) => (pow >? 1))
+      (fun '(self, y, overflow, pow) =>
+        if ((ix_and pow 1) =? 1) then (
+          let '(prod, o) := (Mul.U_overflowing_mul w y self) in
+          let overflow := (orb overflow o) in
+          let y := prod in
+          let '(prod, o) := (Mul.U_overflowing_mul w self self) in
+          let overflow := (orb overflow o) in
+          let self := prod in
+          let pow := (ix_shr pow 1) in
+          Done (Continue (self, y, overflow, pow))
+        ) else (
+          let '(prod, o) := (Mul.U_overflowing_mul w self self) in
+          let overflow := (orb overflow o) in
+          let self := prod in
+          let pow := (ix_shr pow 1) in
+          Done (Continue (self, y, overflow, pow))
+        ))
+      (self, y, overflow, pow) ;;
+    match t3' with
+    | Exited (self, y, overflow, pow) =>
+        let '(prod, o) := (Mul.U_overflowing_mul w self y) in
+        Done (prod, (orb o overflow))
+    | Returned t4' => Done t4'
+    end
+  ).
+
+(* src/buint/checked.rs: fn checked_pow *)
+Definition checked_pow (w N : Z) (fuel : nat) (self : list Z) (pow : Z) : res (option (list Z)) :=
+  if (pow =? 0) then (
+    t1' <- from_digit w N fuel 1 ;;
+    Done (Some t1')
+  ) else (
+    t2' <- from_digit w N fuel 1 ;;
+    let y := t2' in
+    t3' <- while_loop (R := (option (list Z))) fuel
+      (fun '(self, y, pow) => (pow >? 1))
+      (fun '(self, y, pow) =>
+        if ((ix_and pow 1) =? 1) then (
+          match (Mul.U_checked_mul w self y) with
+          | Some m => (
+              let y := m in
+              match (Mul.U_checked_mul w self self) with
+              | Some m => (
+                  let self := m in
+                  let pow := (ix_shr pow 1) in
+                  Done (Continue (self, y, pow))
+                )
+              | None => (
+                  Done (Return None)
+                )
+              end
+            )
+          | None => (
+              Done (Return None)
+            )
+          end
+        ) else (
+          match (Mul.U_checked_mul w self self) with
+          | Some m => (
+              let self := m in
+              let pow := (ix_shr pow 1) in
+              Done (Continue (self, y, pow))
+            )
+          | None => (
+              Done (Return None)
+            )
+          end
+        ))
+      (self, y, pow) ;;
+    match t3' with
+    | Exited (self, y, pow) =>
+        Done (Mul.U_checked_mul w self y)
+    | Returned t4' => Done t4'
+    end
+  ).
+
+(* src/buint/wrapping.rs: fn wrapping_pow *)
+Definition wrapping_pow (w N : Z) (fuel : nat) (self : list Z) (pow : Z) : res (list Z) :=
+  if (pow =? 0) then (
+    t1' <- from_digit w N fuel 1 ;;
+    Done t1'
+  ) else (
+    t2' <- from_digit w N fuel 1 ;;
+    let y := t2' in
+    t3' <- while_loop (R := list Z) fuel
+      (fun '(self, y, pow) => (pow >? 1))
+      (fun '(self, y, pow) =>
+        if ((ix_and pow 1) =? 1) then (
+          let y := (Mul.U_wrapping_mul w self y) in
+          let self := (Mul.U_wrapping_mul w self self) in
+          let pow := (ix_shr pow 1) in
+          Done (Continue (self, y, pow))
+        ) else (
+          let self := (Mul.U_wrapping_mul w self self) in
+          let pow := (ix_shr pow 1) in
+          Done (Continue (self, y, pow))
+        ))
+      (self, y, pow) ;;
+    match t3' with
+    | Exited (self, y, pow) =>
+        Done (Mul.U_wrapping_mul w self y)
+    | Returned t4' => Done t4'
+    end
+  ).
+
+(* src/buint/mod.rs: fn bits *)
+Definition bits (w N : Z) (fuel : nat) (self : list Z) : res (Z) :=
+  t1' <- leading_zeros w N fuel self ;;
+  t2' <- usub (w * N) t1' ;;
+  Done t2'.
+
+(* src/buint/checked.rs: fn checked_ilog2 *)
+Definition checked_ilog2 (w N : Z) (fuel : nat) (self : list Z) : res (option Z) :=
+  t1' <- bits w N fuel self ;;
+  Done (ix_checked_sub t1' 1).
+
+(* src/buint/checked.rs: fn iilog *)
+Fixpoint iilog (dbg : bool) (w N : Z) (fuel : nat) (m : Z) (b : list Z) (k : list Z) {struct fuel} : res (Z * list Z) :=
+  match fuel with
+  | O => NoFuel
+  | S fuel' =>
+  if (cmp_gt (ucmp b k)) then (
+    Done (m, k)
+  ) else (
+    t1' <- eshl m 1 ;;
+    t2' <- of_outcome (Mul.U_mul dbg w b b) ;;
+    t3' <- iilog dbg w N fuel' t1' t2' (fst (Div.U_div_rem_unchecked w k b)) ;;
+    let '(new, q) := t3' in
+    if (cmp_gt (ucmp b q)) then (
+      Done (new, q)
+    ) else (
+      t4' <- of_outcome (Div.U_div w q b) ;;
+      Done ((new + m), t4')
+    )
+  )
+  end.
+
+(* src/buint/checked.rs: fn checked_ilog10 *)
+Definition checked_ilog10 (dbg : bool) (w N : Z) (fuel : nat) (self : list Z) : res (option Z) :=
+  t1' <- is_zero w N fuel self ;;
+  if t1' then (
+    Done None
+  ) else (
+    t2' <- from_digit w N fuel 10 ;;
+    if (cmp_gt (ucmp t2' self)) then (
+      Done (Some 0)
+    ) else (
+      t3' <- from_digit w N fuel 10 ;;
+      t4' <- div_rem_digit w N fuel self 10 ;;
+      t5' <- iilog dbg w N fuel 1 t3' (fst t4') ;;
+      Done (Some (fst t5'))
+    )
+  ).
+
+(* src/buint/checked.rs: fn checked_ilog *)
+Definition checked_ilog (dbg : bool) (w N : Z) (fuel : nat) (self : list Z) (base : list Z) : res (option Z) :=
+  t1' <- from_digit w N fuel 2 ;;
+  t2' <- cmp w N fuel base t1' ;;
+  match t2' with
+  | Lt => (
+      Done None
+    )
+  | Eq => (
+      t3' <- checked_ilog2 w N fuel self ;;
+      Done t3'
+    )
+  | Gt => (
+      t4' <- is_zero w N fuel self ;;
+      if t4' then (
+        Done None
+      ) else (
+        if (cmp_gt (ucmp base self)) then (
+          Done (Some 0)
+        ) else (
+          t5' <- of_outcome (Div.U_div w self base) ;;
+          t6' <- iilog dbg w N fuel 1 base t5' ;;
+          Done (Some (fst t6'))
+        )
+      )
+    )
+  end.
+
+(* src/buint/checked.rs: fn checked_next_power_of_two *)
+Definition checked_next_power_of_two (w N : Z) (fuel : nat) (self : list Z) : res (option (list Z)) :=
+  t1' <- is_power_of_two w N fuel self ;;
+  if t1' then (
+    Done (Some self)
+  ) else (
+    t2' <- bits w N fuel self ;;
+    let bits := t2' in
+    if (bits =? (w * N)) then (
+      Done None
+    ) else (
+      t3' <- power_of_two w N fuel bits ;;
+      Done (Some t3')
+    )
+  ).
+
+(* src/buint/checked.rs: fn checked_next_multiple_of *)
+Definition checked_next_multiple_of (dbg : bool) (w N : Z) (fuel : nat) (self : list Z) (rhs : list Z) : res (option (list Z)) :=
+  match (Div.U_checked_rem w self rhs) with
+  | Some rem => (
+      t1' <- is_zero w N fuel rem ;;
+      if t1' then (
+        Done (Some self)
+      ) else (
+        t2' <- of_outcome (AddSub.U_sub dbg w rhs rem) ;;
+        Done (AddSub.U_checked_add w self t2')
+      )
+    )
+  | None => (
+      Done None
+    )
+  end.
+
+(* src/buint/cast.rs: fn cast_up *)
+Definition cast_up (w N : Z) (fuel : nat) (M : Z) (self : list Z) (digit : Z) : res (list Z) :=
+  let digits := (repeat digit (Z.to_nat M)) in
+  t1' <- usub M N ;;
+  let i := t1' in
+  t5' <- while_loop (R := list Z) fuel
+    (fun '(digits, i) => (i <? M))
+    (fun '(digits, i) =>
+      t2' <- usub M N ;;
+      t3' <- usub i t2' ;;
+      let index := t3' in
+      t4' <- arr_get self index ;;
+      digits <- arr_set digits index t4' ;;
+      let i := (i + 1) in
+      Done (Continue (digits, i)))
+    (digits, i) ;;
+  match t5' with
+  | Exited (digits, i) =>
+      t7' <- from_digits w M fuel digits ;;
+      Done t7'
+  | Returned t6' => Done t6'
+  end.
+
+(* src/buint/cast.rs: fn cast_down *)
+Definition cast_down (w N : Z) (fuel : nat) (M : Z) (self : list Z) : res (list Z) :=
+  let out := (ZERO (Z.to_nat M)) in
+  let i := 0 in
+  t2' <- while_loop (R := list Z) fuel
+    (fun '(out, i) => (i <? M))
+    (fun '(out, i) =>
+      t1' <- arr_get self i ;;
+      out <- arr_set out i t1' ;;
+      let i := (i + 1) in
+      Done (Continue (out, i)))
+    (out, i) ;;
+  match t2' with
+  | Exited (out, i) =>
+      Done out
+  | Returned t3' => Done t3'
+  end.
+
+(* src/buint/cast.rs: fn cast_from *)
+Definition as_buint (w N : Z) (fuel : nat) (pb : Z) (from : Z) : res (list Z) :=
+  let out := (if (from <? 0) then (UMAX w (Z.to_nat N)) else (ZERO (Z.to_nat N))) in
+  let i := 0 in
+  t1' <- while_loop (R := list Z) fuel
+    (fun '(out, from, i) => (andb (negb (from =? 0)) (i <? N)))
+    (fun '(out, from, i) =>
+      let masked := (dg_and w (ud w from) (u_max w)) in
+      out <- arr_set out i masked ;;
+      if (pb <=? w) then (
+        let from := 0 in
+        let i := (i + 1) in
+        Done (Continue (out, from, i))
+      ) else (
+        let from := (p_wrapping_shr pb from w) in
+        let i := (i + 1) in
+        Done (Continue (out, from, i))
+      ))
+    (out, from, i) ;;
+  match t1' with
+  | Exited (out, from, i) =>
+      Done out
+  | Returned t2' => Done t2'
+  end.
+
+(* src/buint/convert.rs: fn from *)
+Definition from_uint (w N : Z) (fuel : nat) (pb : Z) (int : Z) : res (list Z) :=
+  let UINT_BITS := pb in
+  let out := (ZERO (Z.to_nat N)) in
+  let i := 0 in
+  t2' <- while_loop (R := list Z) fuel
+    (fun '(out, i) => ((ix_shl i (digit_BIT_SHIFT w)) <? UINT_BITS))
+    (fun '(out, i) =>
+      t1' <- pshr pb int (ix_shl i (digit_BIT_SHIFT w)) ;;
+      let d := (ud w t1') in
+      if (negb (d =? 0)) then (
+        out <- arr_set out i d ;;
+        let i := (i + 1) in
+        Done (Continue (out, i))
+      ) else (
+        let i := (i + 1) in
+        Done (Continue (out, i))
+      ))
+    (out, i) ;;
+  match t2' with
+  | Exited (out, i) =>
+      Done out
+  | Returned t3' => Done t3'
   end.
 
 End Loops.
